@@ -185,6 +185,8 @@ class C04(HistoryCampaign):
             # the user attaches a fresh calculator between two run() calls: the reference energy is kept, the result
             # cache of the new instance is empty until something is evaluated (seeded C04-5)
             sc["edits"] = [{"before_segment": 1, "fresh_calculator": True}]
+        if rnd.random() < 0.2:
+            sc["calc_used_before"] = True
         if rnd.random() < 0.5:
             sc["files"] = {"logfile": {"name": "log", "as": "object", "mode": "a"}, "logging_interval": 1}
         return sc
